@@ -44,6 +44,8 @@ pub struct MockTp {
     pub log: WireLog,
     pub start: tokio::time::Instant,
     pub fail_send: Arc<AtomicBool>,
+    /// virtual milliseconds the FIRST send takes (connection set-up, a slow first write); 0 = immediate
+    pub first_send_delay_ms: Arc<std::sync::atomic::AtomicU64>,
 }
 
 impl MockTp {
@@ -57,6 +59,7 @@ impl MockTp {
             log,
             start,
             fail_send: Arc::new(AtomicBool::new(false)),
+            first_send_delay_ms: Default::default(),
         }
     }
     pub fn tcp(log: WireLog, start: tokio::time::Instant, remote: SocketAddr) -> Self {
@@ -69,6 +72,7 @@ impl MockTp {
             log,
             start,
             fail_send: Arc::new(AtomicBool::new(false)),
+            first_send_delay_ms: Default::default(),
         }
     }
 }
@@ -107,6 +111,10 @@ impl Transport for MockTp {
     async fn send(&self, message: &[u8], target: SocketAddr) -> io::Result<()> {
         if self.fail_send.load(Ordering::SeqCst) {
             return Err(io::Error::new(io::ErrorKind::Other, "mock send failure"));
+        }
+        let d = self.first_send_delay_ms.swap(0, Ordering::SeqCst);
+        if d > 0 {
+            tokio::time::sleep(Duration::from_millis(d)).await;
         }
         let ms = (tokio::time::Instant::now() - self.start).as_millis() as u64;
         self.log.lock().push((ms, target, message.to_vec(), next_seq()));
